@@ -557,6 +557,26 @@ def block_diagonalize(
                 key: np.array(sympy.sympify(value).applyfunc(NumberOrderedForm.from_expr))
                 for key, value in fully_diagonalize.items()
             }
+            if hermitian:
+                # Like the boolean masks, operator masks must be symmetric: the powers
+                # selected in an element are the adjoints of those in its transpose.
+                for mask in fully_diagonalize.values():
+                    for i, j in np.ndindex(*mask.shape):
+                        upper, lower = mask[i, j], mask[j, i]
+                        if i > j or (not upper and not lower):
+                            continue
+                        if upper and lower:
+                            upper, lower = upper._combine_operators(lower)
+                        if (
+                            not upper
+                            or not lower
+                            or {tuple(-power for power in term) for term in upper.terms}
+                            != {tuple(term) for term in lower.terms}
+                        ):
+                            raise ValueError(
+                                "The values of fully_diagonalize dictionary must be"
+                                " symmetric."
+                            )
 
             def diag(x, index):
                 x = x[index] if isinstance(x, BlockSeries) else x
